@@ -17,12 +17,17 @@ vars == <<l, bad>>
 WellFormed(r) ==
   IF r.m = "s2" THEN /\ Len(r.H) = r.d /\ Len(r.types) = Len(r.fr[1]) /\ r.nd >= 2 /\ r.rn > 0 /\ r.rd > 0
                      /\ \A i \in 1..Len(r.types) : r.types[i] \in 1..Len(r.sig)
-  ELSE IF r.m = "tetra" THEN Len(r.pos) >= 5 /\ Len(r.H) = 3
-  ELSE IF r.m = "nematic" THEN \A f \in 1..Len(r.fr) : \A i \in 1..Len(r.fr[f]) : Norm2(r.fr[f][i]) = r.C * r.C
+                     /\ LoFramesWellFormed(r, Len(r.fr))       \* optional per-frame cells Hs / types tys
+  ELSE IF r.m = "tetra" THEN /\ Len(r.pos) >= 5 /\ Len(r.H) = 3
+                             /\ "pos2" \in DOMAIN r => /\ Len(r.pos2) = Len(r.pos) /\ IsLowerTri(r.H2)
+                                                        /\ \A k \in 1..3 : r.H2[k][k] = r.H[k][k]
+  ELSE IF r.m = "nematic" THEN /\ \A f \in 1..Len(r.fr) : \A i \in 1..Len(r.fr[f]) : Norm2(r.fr[f][i]) = r.C * r.C
+                               /\ r.Nmax >= 1
+                               /\ r.nl # << >> => \A f \in 1..Len(r.fr) : LoIsPerm(r.roword[f], Len(r.fr[f]))
   ELSE IF r.m = "gyr" THEN Len(r.cloud) >= 2
   ELSE FALSE
 
-S2View(r, f) == S2Prep([d |-> r.d, H |-> r.H, ppp |-> r.ppp, S |-> r.S, pos |-> r.fr[f], types |-> r.types,
+S2View(r, f) == S2Prep([d |-> r.d, H |-> LoFrameH(r, f), ppp |-> r.ppp, S |-> r.S, pos |-> r.fr[f], types |-> LoFrameTypes(r, f),
                          sig |-> r.sig, rn |-> r.rn, rd |-> r.rd, nd |-> r.nd])
 ExpS2(r) ==
   LET T == Len(r.fr)  n == Len(r.types)  P == [f \in 1..Len(r.fr) |-> S2View(r, f)] IN
@@ -34,16 +39,24 @@ ExpS2(r) ==
                 THEN [f \in 1..T |-> [i \in 1..n |-> [k \in 1..r.nd |-> S2GT(P[f], i, k)]]]
                 ELSE << >> ]
 
-ExpTetra(r) ==
-  LET rt == TeTable(r.H, r.ppp, r.pos)  tt == TeTieTable(r.H, r.ppp, r.pos)  dg == IsDiagonal(r.H) IN
-  [ rows |-> [i \in 1..Len(r.pos) |->
+TetraRows(H, ppp, pos) ==
+  LET rt == TeTable(H, ppp, pos)  tt == TeTieTable(H, ppp, pos)  dg == IsDiagonal(H) IN
+  [i \in 1..Len(pos) |->
        LET tie == TeTie(rt, tt, dg, i)  b == TeBonds(rt, i) IN
        [ tie |-> tie, four |-> TeFour(rt, i), perfect |-> (~tie /\ TePerfectB(b)),
-         q |-> IF tie THEN "tie" ELSE TetraTermB(b) ]] ]
+         q |-> IF tie THEN "tie" ELSE TetraTermB(b) ]]
+\* a record with pos2 / H2 is a two-frame trajectory: frame 2 is judged with its own cell
+ExpTetra(r) ==
+  IF "pos2" \in DOMAIN r
+  THEN [ rows |-> TetraRows(r.H, r.ppp, r.pos), rows2 |-> TetraRows(r.H2, r.ppp, r.pos2) ]
+  ELSE [ rows |-> TetraRows(r.H, r.ppp, r.pos) ]
 
-NlOf(r, f) == IF r.nl = << >> THEN << >> ELSE r.nl[f]
+\* the lists of frame f as delivered for the argument Nmax of the record
+NlOf(r, f) == IF r.nl = << >> THEN << >> ELSE LoTrunc(r.nl[f], r.Nmax)
 ExpNem(r) ==
-  [ order  |-> [f \in 1..Len(r.fr) |-> [i \in 1..Len(r.fr[f]) |-> NmOrderT(r.fr[f], r.C, NlOf(r, f), i)]],
+  [ rows   |-> IF r.nl = << >> THEN << >> ELSE [f \in 1..Len(r.fr) |-> LoRows(r.nl[f], r.roword[f])],
+    used   |-> [f \in 1..Len(r.fr) |-> IF r.nl = << >> THEN << >> ELSE [i \in 1..Len(r.fr[f]) |-> Len(NlOf(r, f)[i])]],
+    order  |-> [f \in 1..Len(r.fr) |-> [i \in 1..Len(r.fr[f]) |-> NmOrderT(r.fr[f], r.C, NlOf(r, f), i)]],
     tensor |-> [f \in 1..Len(r.fr) |-> [i \in 1..Len(r.fr[f]) |-> NmTensorT(r.fr[f], r.C, NlOf(r, f), i)]] ]
 
 ExpGyr(r) ==
